@@ -48,6 +48,7 @@ HARNESS_PKGS = {
     'raftstore': 'internal/raftstore',
     'robust': 'internal/robust',
     'timesafeguard': 'internal/timesafeguard',
+    'localnet': 'internal/localnet',
     'main': '.',
 }
 
